@@ -97,6 +97,10 @@ def _iter_source(ex, it: SV, st: State):
         return ('static', it.elts)
     if it.kind == 'val' and it.ty is not None and it.ty.kind in ('list', 'dict'):
         it = sv_ref(ex.as_ref(it, st, 'iteration'), NonOpt(it.ty))
+    if it.kind == 'val' and (it.ty is None or it.ty.kind == 'val'):
+        # dynamically typed iterable: must be a list (anything else is outside the subset -> TypeError exit)
+        ex.side_raise(st, 'TypeError', z3.Not(z3.And(is_VRef(it.t), st.h.cls(v_a(it.t)) == CLS_LIST)), 'iteration over a non-list')
+        it = sv_ref(v_a(it.t), List(None))
     if it.kind == 'ref' and it.cls == 'list':
         return ('list', it.t, it.ty.elem if it.ty else None)
     if it.kind == 'ref' and it.cls == 'dict':
